@@ -2,6 +2,7 @@ package model
 
 import (
 	"fmt"
+	"io"
 	"strconv"
 
 	"github.com/ipld/go-ipld-prime/datamodel"
@@ -172,6 +173,62 @@ func (f *Foreign) AsBytes() ([]byte, error) {
 	}
 	return append([]byte{}, f.g.Bs...), nil
 }
+
+// AsLargeBytes makes Foreign a datamodel.LargeBytesNode whose reader delivers the content in short reads of
+// 1, 2, 4, 5, 7, 1, ... bytes (never a multiple of three, never a full buffer): what a sharded bytes ADL looks like.
+func (f *Foreign) AsLargeBytes() (io.ReadSeeker, error) {
+	if f.V.K != "bytes" {
+		return nil, f.wrong("AsLargeBytes", datamodel.KindSet_JustBytes)
+	}
+	return &stutterReader{b: append([]byte{}, f.g.Bs...)}, nil
+}
+
+var _ datamodel.LargeBytesNode = &Foreign{}
+
+type stutterReader struct {
+	b    []byte
+	off  int64
+	turn int
+}
+
+var stutterSizes = []int{1, 2, 4, 5, 7}
+
+func (r *stutterReader) Read(p []byte) (int, error) {
+	if r.off >= int64(len(r.b)) {
+		return 0, io.EOF
+	}
+	if len(p) == 0 {
+		return 0, nil
+	}
+	n := stutterSizes[r.turn%len(stutterSizes)]
+	r.turn++
+	if n > len(p) {
+		n = len(p)
+	}
+	n = copy(p[:n], r.b[r.off:])
+	r.off += int64(n)
+	return n, nil
+}
+
+func (r *stutterReader) Seek(offset int64, whence int) (int64, error) {
+	var abs int64
+	switch whence {
+	case io.SeekStart:
+		abs = offset
+	case io.SeekCurrent:
+		abs = r.off + offset
+	case io.SeekEnd:
+		abs = int64(len(r.b)) + offset
+	default:
+		return 0, fmt.Errorf("stutterReader: invalid whence")
+	}
+	if abs < 0 {
+		return 0, fmt.Errorf("stutterReader: negative position")
+	}
+	r.off = abs
+	return abs, nil
+}
+
 func (f *Foreign) AsLink() (datamodel.Link, error) {
 	if f.V.K != "link" {
 		return nil, f.wrong("AsLink", datamodel.KindSet_JustLink)
